@@ -189,6 +189,8 @@ def literal_texts(run):
             add("escape-combo", '"x' + head + tail + '"')
     for t, _ in ESC_LITERAL:
         add("escape-combo", t)
+    for t, _ in mixed_literals(run, rng):
+        add("mixed", t)
     # integers
     for k in [1, 2, 3, 5, 10, 19, 20, 39, 100, 1000, 4000, 4299, 4300, 4301, 5000]:
         for _ in range(run.n(4 if k < 4000 else 2, 30 if k < 4000 else 8)):
@@ -237,6 +239,50 @@ ESC_TAIL_NAMES = ["a raw non-ASCII character", "a raw non-ASCII character", "a r
 ESC_LITERAL = [("'\\U0041'", "\\U0041"), ("'\\U0041 zz'", "\\U0041 zz"), ("'\\u41'", "\\u41"), ("'\\x4'", "\\x4"),
                ("'\\X41'", "\\X41"), ("'\\A'", "\\A"), ("'\\T'", "\\T"), ('"\\n{BULLET}"', "\n{BULLET}"), ("'\\N{}'", "\\N{}"),
                ("'\\8'", "\\8"), ("'\\N'", "\\N")]
+
+# one literal mixing genuine escapes, stray (unpaired) backslashes before characters of every plane, and raw text.
+# Each piece is (text, the value it denotes on its own); pieces are chosen so that neighbours cannot combine.
+MIX_GENUINE = [("\\n", "\n"), ("\\t", "\t"), ("\\\\", "\\"), ("\\'", "'"), ('\\"', '"'), ("\\x41", "A"), ("\\xe9", "é"),
+               ("\\u0041", "A"), ("\\u0100", "Ā"), ("\\U0001f600", "\U0001f600"), ("\\101", "A"), ("\\7", "\x07"),
+               ("\\N{BULLET}", "•")]
+MIX_AFTER_BACKSLASH = ["q", "A", " ", "-", "é", "ÿ", "\x80", "Ā", "ж", "あ", "\uffff", "\u2028", "\U0001f600", "\U00010000",
+                       "\U0010ffff", "\ud800", "\udfff", "Z", "%", "8"]
+MIX_STRAY = [("\\" + c, "\\" + c) for c in MIX_AFTER_BACKSLASH]
+MIX_RAW = [(c, c) for c in ["z", " ", "é", "Ā", "ж", "\U0001f600", "\ud800", "\n", "$", "q q"]]
+MIX_END = [(t, t) for t in ["\\N", "\\u12", "\\x4", "\\U0041", "\\N{", "\\N{}", "\\8", "\\u", "\\x", "\\U0001f60"]]
+
+
+def mixed_literals(run, rng):
+    """[(literal text, the value it must denote)]"""
+    out = []
+
+    def lit(pieces, k):
+        q = "'" if k % 2 else '"'
+        out.append((q + "".join(p[0] for p in pieces) + q, "".join(p[1] for p in pieces)))
+
+    k = 0
+    for g in MIX_GENUINE:
+        for st in MIX_STRAY:
+            for pieces in ([g, st], [st, g], [g, ("z", "z"), st], [st, ("z", "z"), g], [st, st, g], [g, st, g], [st, g, st]):
+                lit(pieces, k)
+                k += 1
+        for e in MIX_END:
+            lit([g, e], k)
+            lit([g, ("z", "z"), e], k + 1)
+            k += 2
+    for st in MIX_STRAY:
+        for e in MIX_END:
+            lit([st, e], k)
+            k += 1
+    pool = MIX_GENUINE * 2 + MIX_STRAY * 2 + MIX_RAW
+    for _ in range(run.n(800, 20000)):
+        pieces = [rng.choice(pool) for _ in range(rng.randrange(2, 7))]
+        if rng.random() < 0.25:
+            pieces.append(rng.choice(MIX_END))
+        lit(pieces, k)
+        k += 1
+    return out
+
 
 BIASED = ["\\", "\\", "'", '"', "`", "\n", "\\n", "\\x41", "\\u", "\\N{", "}", "a", "z", " ", "\t", "0", "7", "\x00",
           "\ud800", "é", "\U0001f600", "\\\\", "\\`", "\\'", "$", "(", "\r"]
@@ -420,6 +466,9 @@ def oracle(run, deep):
             expect("an escape followed by %s" % ESC_TAIL_NAMES[j], q + head + tail + q, hv + tv)
     for text, value in ESC_LITERAL:
         expect("an incomplete escape stays as written", text, value)
+    # one literal mixing genuine escapes, stray backslashes before characters of every plane, raw text
+    for text, value in mixed_literals(run, rng):
+        expect("a literal mixing escapes with stray backslashes and raw characters", text, value)
     # integers and floats denote the Python numbers
     for _ in range(run.n(300, 5000)):
         k = rng.choice([1, 2, 5, 18, 19, 20, 100, 1000, 4000, 4300])
@@ -453,7 +502,60 @@ def oracle(run, deep):
                      {"input": lc.compress(w), "input_repr": w, "observed": [str(x) for x in o], "required": [str(x) for x in want],
                       "theorems": ["C16_keywords"]})
     run.note("oracle: %d values round-tripped in three quote styles" % nchecked)
+    overlapping_literals(run)
     multi_engine_oracle(run, deep)
+
+
+# ---------------------------------------------------------------- overlapping parses on one engine
+OVERLAP_LITERALS = ["'aaa'", '"zzz"', "`a\\n`", "'\\x41\\n'", "12", "34.5", "007", "true", "false", "null", "foo", "bar_1",
+                    "'it\\'s'", '"Ā\\u0100"']
+
+
+def parse_overlapped(a, b, at):
+    """engine(a) with a complete engine(b) on the SAME engine between two token fetches of a (what a thread switch
+    at that point does, without threads).  Returns (observation of a, observation of b)."""
+    import ply.lex
+    eng = lc.engine()
+    orig = ply.lex.Lexer.token
+    state = {"n": 0, "inner": False, "b": None}
+
+    def token(lexer):
+        if state["inner"] is False:
+            state["n"] += 1
+            if state["n"] == at:
+                state["inner"] = True
+                state["b"] = observe(b)
+                state["inner"] = "done"
+        return orig(lexer)
+
+    ply.lex.Lexer.token = token
+    try:
+        oa = observe(a)
+    finally:
+        ply.lex.Lexer.token = orig
+    return oa, state["b"]
+
+
+def overlapping_literals(run):
+    """Every call of the engine reads its own text: a literal denotes the value it spells also when another literal is
+    parsed on the same engine between two of its token fetches."""
+    alone = {t: observe(t) for t in OVERLAP_LITERALS}
+    reported = False
+    for a in OVERLAP_LITERALS:
+        for b in OVERLAP_LITERALS:
+            for at in (1, 2):
+                oa, ob = parse_overlapped(a, b, at)
+                run.case(("overlap", a, b, at), nontrivial=True)
+                ok = oa == alone[a] and ob == alone[b]
+                run.count("oracle:overlap:" + ("ok" if ok else "fail"))
+                if not ok and not reported:
+                    reported = True
+                    run.fail("violation", "a literal does not denote the value it spells when another parse on the same "
+                                          "engine runs between two of its token fetches",
+                             {"overlap": {"text": a, "other": b, "before_fetch": at},
+                              "observed": {"text": [str(x) for x in oa], "other": [str(x) for x in (ob or ["not run"])]},
+                              "required": {"text": [str(x) for x in alone[a]], "other": [str(x) for x in alone[b]]},
+                              "theorems": ["C16_sq_roundtrip .. C16_keywords: the value is a function of the literal's own text"]})
 
 
 # ---------------------------------------------------------------- several engines in one process
@@ -561,6 +663,10 @@ def replay(run, data):
     d = data["data"]
     if "scenario" in d:
         return not run_scenario(d["scenario"])
+    if "overlap" in d:
+        o = d["overlap"]
+        oa, ob = parse_overlapped(o["text"], o["other"], o["before_fetch"])
+        return oa == observe(o["text"]) and ob == observe(o["other"])
     if "value" in d:
         s = "".join(chr(c) for c in d["value"])
         bad = [b for b in roundtrip_failure(s) if b[0] != "verbatim" or vb_ok(s)]
